@@ -179,6 +179,13 @@ type Params struct {
 	UseVia    string `json:"use_via,omitempty"`
 	UseSite   string `json:"use_site,omitempty"`
 	UseSyntax string `json:"use_syntax,omitempty"`
+	// BoolOptFalse (round 5; with FileOpts): the boolean language option of every file is written with its
+	// default value (`option java_multiple_files = false;`) instead of true: an option that is present
+	// with the value an absent option has.
+	BoolOptFalse bool `json:"bool_file_option_false,omitempty"`
+	// Features (round 5; one of FeatureVariants or ""): editions features written in every editions file
+	// of the workspace (features.go).
+	Features string `json:"editions_features,omitempty"`
 }
 
 // DefaultParams is the simplest member.
@@ -198,6 +205,12 @@ func (p Params) Key() string {
 	}
 	if p.UseSite != "" {
 		key += fmt.Sprintf("/use=%s,%s,%s", p.UseVia, p.UseSite, p.UseSyntax)
+	}
+	if p.BoolOptFalse {
+		key += "/boolopt=false"
+	}
+	if p.Features != "" {
+		key += "/features=" + p.Features
 	}
 	return key
 }
@@ -258,7 +271,7 @@ func (b *builder) fileOptions(pkgWords string) []*FileOption {
 	return []*FileOption{
 		{"go_package", `"example.com/gen/` + pkgWords + `;` + pkgWords + `pb"`},
 		{"java_package", `"com.example.` + pkgWords + `"`},
-		{"java_multiple_files", "true"},
+		{"java_multiple_files", fmt.Sprint(!b.p.BoolOptFalse)},
 		{"csharp_namespace", `"Example.` + pkgWords + `"`},
 		{"php_namespace", `"Example\\` + pkgWords + `"`},
 		{"ruby_package", `"Example::` + pkgWords + `"`},
@@ -525,6 +538,10 @@ func Build(p Params) *Spec {
 	// ---- consumer file + import-only dependency files (import usage dimension) -------------------
 	if p.UseSite != "" {
 		addUsage(s, b, false)
+	}
+	// ---- editions features (features.go) ----------------------------------------------------------
+	if p.Features != "" {
+		applyFeatures(s, p.Features)
 	}
 	return s
 }
